@@ -42,6 +42,9 @@ var c14Kind = registerKind("c14", func(in c14In) string {
 		if st.IsValid() {
 			return fmt.Sprintf("LifeCycleToState(0x%04x) = %d (%s) which IsValid, but the value is in no range", v, st, st)
 		}
+		if st != psatoken.StateInvalid {
+			return fmt.Sprintf("LifeCycleToState(0x%04x) = %d, want the invalid state (%d)", v, st, psatoken.StateInvalid)
+		}
 		if st.String() != "invalid" {
 			return fmt.Sprintf("state name of out-of-range 0x%04x is %q, want \"invalid\"", v, st.String())
 		}
